@@ -374,9 +374,11 @@ class World:
                     h = r.choice(chs) if (chs and r.random() < 0.35) else f'as{self.new_n}'
                     self.new_n += 1
                     which = r.choice(['addState', 'writeNew'])
-                    if which == 'addState' and r.random() < 0.25:
+                    anonymous = which == 'addState' and r.random() < 0.25
+                    if anonymous:
                         h = f'uuid{self.new_n}'      # a container without Handle: the transaction has to give it one
-                    script['calls'].append([which, r.choice(cds), h, r.randrange(1000)])
+                        self.new_n += 1               # (generated handles are fresh)
+                    script['calls'].append([which, r.choice(cds), h, r.randrange(1000)] + ([True] if anonymous else []))
                     got.append(h)
                 elif chs:
                     script['calls'].append(['del', r.choice(chs) if r.random() < 0.8 else 'nohandle'])
@@ -519,6 +521,7 @@ class World:
                             raise
                 self.clock.t += 1
                 if script['raise']:
+                    info['propagating'] = True
                     raise AppAbort
                 info['n_items'] = self._n_items(mgr)
         except AppAbort:
@@ -531,6 +534,13 @@ class World:
                 info['error'] = repr(ex)
         else:
             info['outcome'] = 'committed' if info['n_items'] else 'empty'
+            if info['error'] is not None or info.get('propagating'):
+                # an exception left the body of the `with` (a call the API rejected and the application did not catch, or the
+                # application's own exception), but the transaction manager did not let it through: the body was executed
+                # half-way and the transaction went on as if nothing had happened
+                info.setdefault('isolation_failures', []).append(
+                    ('exception-in-transaction-body-swallowed', f'{info["error"] or "application exception"} did not reach the application; '
+                                                               f'the transaction ended as {info["outcome"]}'))
         res = m.transaction if (m.transaction is not prev_result) else None
         info['result'] = res
         if info['outcome'] in ('aborted', 'rejected'):
@@ -688,12 +698,12 @@ class World:
                     self._tr.uuid = orig
                 info['handed'][h] = st
             elif op == 'addState':
-                _, dh, h, n = call
+                _, dh, h, n = call[:4]
                 d = m.descriptions.handle.get_one(dh, allow_none=True)
                 if d is None or not d.is_context_descriptor:
                     return
                 st = m.data_model.mk_state_container(d)
-                anonymous = h.startswith('uuid')
+                anonymous = len(call) > 4 and call[4]
                 st.Handle = h
                 st.descriptor_container = None
                 self.mutate_state(st, n)
